@@ -52,8 +52,6 @@ Proof.
         rewrite (H d0 (or_introl eq_refl)). cbn. apply String.eqb_refl.
 Qed.
 
-Definition count_data (scs : list scd) : nat := length (filter scd_is_data scs).
-
 Lemma conf_some x c scs : forall k, confirmations x (Some c) k scs = Some (Some c, k + count_data scs).
 Proof.
   unfold count_data. induction scs as [|s r IH]; intros k; cbn [confirmations filter length].
@@ -206,3 +204,110 @@ Example fine_example :
                status_top := status_top x; status_second := None;
                assertions := [{| n_authn := 1; subject := Some [NoData; Data (Some "req-2")] |}] |} = NoId.
 Proof. vm_compute. split; reflexivity. Qed.
+
+
+(* ------------------------------------------------------------------ the delivery *)
+Lemma noid_status x : status_respected x NoId.
+Proof. intros _. split; [reflexivity|discriminate]. Qed.
+
+Lemma noid_shape x : shape_respected x NoId.
+Proof. intros _. reflexivity. Qed.
+
+Lemma noid_correlated x : correlated x NoId.
+Proof. intros _ cf H. discriminate H. Qed.
+
+Lemma back_channel_status x : status_respected x (accept_back_channel x).
+Proof.
+  intros Hne. assert (E : String.eqb (status_top x) STATUS_SUCCESS = false).
+  { rewrite success_const. apply String.eqb_neq; exact Hne. }
+  unfold accept_back_channel. destruct (instance_invalid x); [split; [reflexivity|discriminate]|].
+  destruct (version_ok (version x)); cbn [negb]; [|split; [reflexivity|discriminate]].
+  rewrite E. cbn [negb]. split; [reflexivity|]. intros c [= <-]. apply status_class_ok_model.
+Qed.
+
+Lemma back_channel_identity_inv x cf :
+  accept_back_channel x = Identity cf ->
+  cf = None /\ version_ok (version x) = true /\ exists a, assertions x = [a] /\ n_authn a = 1 /\ subject a <> None.
+Proof.
+  unfold accept_back_channel. destruct (instance_invalid x); [discriminate|].
+  destruct (version_ok (version x)); cbn [negb]; [|discriminate].
+  destruct (String.eqb (status_top x) STATUS_SUCCESS); cbn [negb]; [|discriminate].
+  destruct (assertions x) as [|a [|b r]]; try discriminate.
+  destruct (n_authn a =? 1)%nat eqn:En; cbn [negb]; [|discriminate]. apply Nat.eqb_eq in En.
+  destruct (subject a) as [scs|] eqn:Es; [|discriminate].
+  destruct (count_data scs =? 0)%nat; [discriminate|]. intros [= <-].
+  split; [reflexivity|]. split; [reflexivity|]. exists a. rewrite Es. repeat split; auto. discriminate.
+Qed.
+
+Lemma back_channel_shape x : shape_respected x (accept_back_channel x).
+Proof.
+  intros H. destruct (accept_back_channel x) as [cf| |] eqn:A; try reflexivity. exfalso.
+  apply back_channel_identity_inv in A as (_ & Hv & a & Has & Hn & Hs).
+  apply version_ok_iff in Hv. destruct H as [H|[H|(b & Hb & [H|H])]].
+  - contradiction.
+  - rewrite Has in H. discriminate.
+  - rewrite Has in Hb. destruct Hb as [<-|[]]. contradiction.
+  - rewrite Has in Hb. destruct Hb as [<-|[]]. contradiction.
+Qed.
+
+(* the two browser bindings are treated alike, and as an asynchronous hop: the decision on a Response
+   that arrived over HTTP-POST or HTTP-Redirect, unaddressed or addressed to that binding's consumer
+   endpoint, is [accept], in which the binding does not occur *)
+Lemma browser_is_accept y : browser (via y) = true -> well_addressed y = true -> receive y = accept (resp y).
+Proof. unfold receive, well_addressed. destruct (via y), (dest y); cbn; congruence. Qed.
+
+(* addressed elsewhere (incl. the OTHER binding's endpoint): nothing comes out *)
+Lemma browser_misaddressed y : browser (via y) = true -> well_addressed y = false -> receive y = NoId.
+Proof. unfold receive, well_addressed. destruct (via y), (dest y); cbn; congruence. Qed.
+
+Lemma c06_delivery_holds y : spec_d y (receive y).
+Proof.
+  destruct (c06_holds (resp y)) as (H1 & H2 & H3 & H4 & H5).
+  unfold spec_d. destruct (browser (via y)) eqn:Hb.
+  - destruct (well_addressed y) eqn:Hw.
+    + rewrite (browser_is_accept y Hb Hw).
+      split; [intros _; exact H1|]. split; [exact H2|]. split; [exact H3|]. intros _ _. split; [exact H4|exact H5].
+    + rewrite (browser_misaddressed y Hb Hw).
+      split; [intros _; apply noid_correlated|]. split; [apply noid_status|]. split; [apply noid_shape|].
+      intros _ H; discriminate H.
+  - split; [intros H; discriminate H|].
+    assert (Hs : status_respected (resp y) (receive y) /\ shape_respected (resp y) (receive y)).
+    { unfold receive. destruct (via y); try discriminate Hb; cbn [unravels asynchop negb].
+      - destruct (destination_ok Artifact (dest y)); [split; assumption|split; [apply noid_status|apply noid_shape]].
+      - split; [apply back_channel_status|apply back_channel_shape].
+      - split; [apply noid_status|apply noid_shape]. }
+    destruct Hs as [Hs1 Hs2]. split; [exact Hs1|]. split; [exact Hs2|]. intros H; discriminate H.
+Qed.
+
+(* what the browser-binding guard of the correlation clause leaves out, as coded: over the SOAP back
+   channel the outstanding set is not consulted and no request context is handed back *)
+Lemma back_channel_uncorrelated y cf : via y = Soap -> receive y = Identity cf -> cf = None.
+Proof.
+  unfold receive. intros ->. cbn [unravels asynchop negb]. intros H.
+  apply back_channel_identity_inv in H as [H _]. exact H.
+Qed.
+
+Lemma back_channel_ignores_outstanding y o a :
+  via y = Soap ->
+  receive {| via := Soap; dest := dest y;
+             resp := {| allow_unsolicited := a; outstanding := o; irt := irt (resp y); version := version (resp y);
+                        status_top := status_top (resp y); status_second := status_second (resp y);
+                        assertions := assertions (resp y) |} |} = receive y.
+Proof. intros Hv. unfold receive. rewrite Hv. reflexivity. Qed.
+
+(* non-vacuity of the delivery layer: Redirect is correlated like POST; an unknown InResponseTo is refused over both;
+   the other binding's endpoint as Destination is refused; the back channel does not correlate *)
+Example delivery_example :
+  let fine := {| allow_unsolicited := false; outstanding := [("req-1", "/ctx1"); ("req-2", "/ctx2")]; irt := Some "req-1";
+                 version := (2, 0); status_top := SUCCESS; status_second := None;
+                 assertions := [{| n_authn := 1; subject := Some [Data (Some "req-1")] |}] |} in
+  let stray := {| allow_unsolicited := false; outstanding := outstanding fine; irt := Some "unknown-9";
+                  version := (2, 0); status_top := SUCCESS; status_second := None;
+                  assertions := [{| n_authn := 1; subject := Some [Data (Some "unknown-9")] |}] |} in
+  receive {| via := Redirect; dest := DRedirect; resp := fine |} = Identity (Some "/ctx1")
+  /\ receive {| via := Post; dest := DPost; resp := fine |} = Identity (Some "/ctx1")
+  /\ receive {| via := Redirect; dest := DRedirect; resp := stray |} = NoId
+  /\ receive {| via := Post; dest := DAbsent; resp := stray |} = NoId
+  /\ receive {| via := Redirect; dest := DPost; resp := fine |} = NoId
+  /\ receive {| via := Soap; dest := DPost; resp := stray |} = Identity None.
+Proof. vm_compute. repeat split; reflexivity. Qed.
